@@ -97,6 +97,7 @@ def _verify_one(args):
                 ex = Exec(repo, qualname, config=cfg)
                 obs += ex.verify()
                 inl.update(getattr(ex, "inlined_fns", {}))
+                out["anchor_counts"] = dict(getattr(ex, "anchor_counts", {}))
             # the item's fingerprint: its own body plus the bodies inlined into its verification conditions (property
             # getters / setters, Node.__init__, helpers without a contract)
             import hashlib
